@@ -225,6 +225,7 @@ Fixpoint stop_last (docs : list (string * val)) : bool :=
 
 Definition wf_b (docs : list (string * val)) : bool :=
   negb (existsb is_page_doc docs)
+  && negb (keys_overlap docs)
   && stop_last docs
   && nodup_atoms (map fst (descriptors docs))
   && forallb (fun p => reserved_free (dict_of (snd p))) (descriptors docs)
